@@ -23,7 +23,8 @@ from urllib.parse import parse_qsl, urlsplit
 
 from ..common import hx, unhx
 from ..runner import Check
-from ..subproc import child_env, pmap, run_py
+from ..subproc import child_env, pmap
+from .c18_pool import run_py
 
 FIELDS = {"http_headers": ":", "http_query_parameters": "="}
 SPACES = [" ", "\t", "\u00a0", "\u2003", "\u3000", "\x1c", "\x0b", "\u0085", "\u200b", "\ufeff"]   # the last two are NOT white space
@@ -347,7 +348,7 @@ def campaign_kv_three_ways(ck: Check, rn, extra_cases: list[dict] | None = None,
     if extra_cases is not None:
         cases = extra_cases
     else:
-        n_local, n_url = (1, 0) if ck.tier == "quick" else (16, 6)
+        n_local, n_url = (0, 0) if ck.tier == "quick" else (16, 6)   # quick: the stratum representatives only
         cases = ALWAYS + ALWAYS_URL + [gen_case(rng, False) for _ in range(n_local)] + [gen_case(rng, True) for _ in range(n_url)]
     loop = None
     if any(c.get("url") for c in cases):
